@@ -32,8 +32,11 @@ def render(f, top=True) -> str:
     k = f["k"]
     if k == "cmp":
         return f"{render_term(f['l'])} {f['op']} {render_term(f['r'])}"
+    if k == "chain":
+        body = f"{render_term(f['t1'])} {f['o1']} {render_term(f['t2'])} {f['o2']} {render_term(f['t3'])}"
+        return body if top else f"({body})"
     if k == "not":
-        return f"not ({render(f['a'], False)})" if f["a"]["k"] != "cmp" else f"not {render(f['a'], False)}"
+        return f"not {render(f['a'], False)}" if f["a"]["k"] != "cmp" else f"not {render(f['a'], False)}"
     inner = f" {k} ".join(render(a, False) if a["k"] in ("cmp", "not") else f"({render(a, False)})" for a in f["args"])
     return inner if top else f"({inner})"
 
@@ -124,12 +127,15 @@ def boolalg_runs(t: str):
         return [("atoms-not", dict(vars_='{"x", "y"}', consts="{0, 1, 2}", box="-2..4", shapes='{"atom", "not"}'), list(TEMPLATES), 8),
                 ("and2-or2", dict(vars_='{"x", "y"}', consts="{0, 2}", box="-2..4", shapes='{"and2", "or2"}'), ["assign"], 0),
                 ("x-only-lits", dict(vars_='{"x"}', consts="{0, 1, 2}", box="-2..4", shapes='{"lit2", "nand2", "nor2"}'),
-                 ["assign", "ifelse_pass", "for_if", "return"], 25)]
+                 ["assign", "ifelse_pass", "for_if", "return"], 25),
+                ("chains", dict(vars_='{"x", "y"}', consts="{0, 2}", box="-2..4", shapes='{"chain"}'), list(TEMPLATES), 10)]
     return [("atoms-not", dict(vars_='{"x", "y"}', consts="{0, 1, 2}", box="-2..4", shapes='{"atom", "not"}'), list(TEMPLATES), 2),
             ("and2-or2-nand-nor", dict(vars_='{"x", "y"}', consts="{0, 1, 2}", box="-2..4", shapes='{"and2", "or2", "nand2", "nor2"}'),
              ["assign", "ifelse_pass"], 50),
             ("x-only-lits", dict(vars_='{"x"}', consts="{0, 1, 2}", box="-2..4", shapes='{"lit2", "nand2", "nor2"}'), list(TEMPLATES), 10),
-            ("x-only-3", dict(vars_='{"x"}', consts="{0, 1, 2}", box="-2..4", shapes='{"and3", "or3", "mixed"}'), ["assign"], 0)]
+            ("x-only-3", dict(vars_='{"x"}', consts="{0, 1, 2}", box="-2..4", shapes='{"and3", "or3", "mixed"}'), ["assign"], 0),
+            ("chains", dict(vars_='{"x", "y"}', consts="{0, 1, 2}", box="-2..4", shapes='{"chain"}'), list(TEMPLATES), 4),
+            ("chains-mixed", dict(vars_='{"x"}', consts="{0, 2}", box="-2..4", shapes='{"chain2"}'), ["assign", "ifelse_pass", "for_if", "return"], 20)]
 
 
 def ranges_part(rep: Report, mods, t: str, known, stats):
@@ -140,9 +146,9 @@ def ranges_part(rep: Report, mods, t: str, known, stats):
         consts = dict(starts="-1..4", stops="-1..4", steps="{1, 2, 3}", fc="-1..4", fo='{"<", "<=", ">", ">=", "==", "!="}', box="-2..4", mults="{1, 2, 3}")
     mc = "\n".join(["---- MODULE RangesMC ----", "EXTENDS Ranges", f"MC_Starts == {consts['starts']}", f"MC_Stops == {consts['stops']}",
                     f"MC_Steps == {consts['steps']}", f"MC_FC == {consts['fc']}", f"MC_FO == {consts['fo']}", f"MC_Box == {consts['box']}",
-                    f"MC_Mults == {consts['mults']}", "====", ""])
+                    f"MC_Mults == {consts['mults']}", 'MC_OrForms == {"<", ">="}', "====", ""])
     cfg = "\n".join(["CONSTANTS", "  Starts <- MC_Starts", "  Stops <- MC_Stops", "  Steps <- MC_Steps", "  FilterConsts <- MC_FC",
-                     "  FilterOps <- MC_FO", "  Box <- MC_Box", "  Mults <- MC_Mults", "INIT Init", "NEXT Next", "INVARIANT Dump",
+                     "  FilterOps <- MC_FO", "  Box <- MC_Box", "  Mults <- MC_Mults", "  OrForms <- MC_OrForms", "INIT Init", "NEXT Next", "INVARIANT Dump",
                      "CHECK_DEADLOCK FALSE", ""])
     res = run_tlc("RangesMC", cfg, generated_files={"RangesMC.tla": mc}, timeout_s=1800, keep_stdout=False)
     rep.add_tlc(res, "Ranges")
@@ -154,7 +160,10 @@ def ranges_part(rep: Report, mods, t: str, known, stats):
     for rec in res.records:
         kind = rec["kind"]
         if kind == "comp":
-            cond = " and ".join(f"x {op} {c}" if c >= 0 else f"x {op} ({c})" for op, c in rec["fs"])
+            parts = [f"x {op} {c}" if c >= 0 else f"x {op} ({c})" for op, c in rec["fs"]]
+            form = rec.get("form", "and")
+            cond = (" and ".join(parts) if form == "and" else " or ".join(parts) if form == "or" else
+                    f"{parts[0]} and ({parts[1]} or {parts[2]})" if form == "andor" else f"{parts[0]} or {parts[1]} and {parts[2]}")
             args = f"{rec['a']}, {rec['b']}" + (f", {rec['s']}" if rec["s"] != 1 else "")
             text = f"r = [x for x in range({args}) if {cond}]\n"
             envs, exps = [{}], [rec["exp"]]
